@@ -123,6 +123,13 @@ DoRename(f, o, raw, raw2) ==
     ELSE IF sn = NONE THEN Out(EINVALARG, f)
     ELSE IF ~dp.ok THEN Out(dp, f)
     ELSE IF dn = NONE THEN Out(EINVALARG, f)
+    ELSE IF o.flag \in {"WHITEOUT", "WHITEOUT_NOREPLACE"} THEN
+         \* RENAME_WHITEOUT: the plain (or NOREPLACE) rename, and where the source name was a whiteout (character device 0:0)
+         \* appears -- unless nothing moved (source and target are one inode: vfs_rename returns before doing anything)
+         LET r == Renameat(f, sp.ino, sn, dp.ino, dn, IF o.flag = "WHITEOUT" THEN "" ELSE "NOREPLACE")
+             moved == r.res.ok /\ r.fs.dents # f.dents IN
+         IF moved THEN Out(r.res, [r.fs EXCEPT !.dents = @ \cup {<<sp.ino, sn, NEWINO>>}, !.kind[NEWINO] = "chr"])
+         ELSE Out(r.res, r.fs)
     ELSE LET r == Renameat(f, sp.ino, sn, dp.ino, dn, o.flag) IN Out(r.res, r.fs)
 
 
